@@ -71,18 +71,56 @@ def measure_py(klass, cell):
     return m
 
 
+def factor_py(klass, kind, l, r):
+    """the factor one axis of coordinate kind `kind` contributes to the measure of a cell of class `klass`"""
+    if kind == "r":
+        return (r ** 3 - l ** 3) / 3 if klass == "SphericalHistogram" else (r * r - l * l) / 2
+    if kind == "theta":
+        return math.cos(l) - math.cos(r)
+    return r - l
+
+
+def measure_by_kinds(klass, kinds, cell):
+    """the measure of a cell of a transformed N-d class whose axes are listed in the order `kinds` (a permutation of
+    KIND[klass]): every axis contributes the factor of ITS coordinate, wherever it stands"""
+    m = 1.0
+    for kd in KIND[klass]:                      # multiplied in the canonical order of the class
+        l, r = cell[kinds.index(kd)]
+        m *= factor_py(klass, kd, l, r)
+    return m
+
+
+def canonical(klass, kinds):
+    """True when `kinds` says nothing else than the class: absent, or the canonical order of the class"""
+    return not kinds or klass not in KIND or klass == "Histogram1D" or list(kinds) == KIND[klass]
+
+
 # ---------------------------------------------------------------------------------------------------------------------
 # stream "derived": the same clauses on DERIVED histograms and on histograms WITH A HISTORY of reads
 # ---------------------------------------------------------------------------------------------------------------------
 PLAIN = ("Histogram1D", "Histogram2D", "HistogramND")
 # every geometry observable the property names; a read is {"what": <name>, "axis": <int>}
 READS = ["sizes", "densities", "total", "widths", "left", "right", "centers", "bins", "mesh_widths", "mesh_centers", "cumulative"]
+# the numpy-style edge representations (each of them computes -- and may keep -- the edge array of a binning); reading one
+# of a histogram whose bins have a gap is legitimately refused ("might not be available for inconsecutive binnings")
+EDGE_READS = ["edges", "numpy_bins", "bin_edges", "edge_mesh", "numpy_like", "binning_edges", "binning_repr", "consecutive",
+              "first_last"]
 # derivations by family (the family is drawn first, so that the rare kinds get their share)
 FAMILIES = {
     "axes": ["T"],                                                             # same contents, axes re-arranged (Histogram2D)
     "same": ["copy", "mul", "div", "imul", "idiv", "add", "iadd", "normalize"],  # same bins, other contents
     "rebin": ["merge", "projection", "slice", "select"],                         # other bins
     "grow": ["fill"],                                                          # adaptive growth in place
+}
+
+
+# which axis subsets the transformed classes map to which class (used by the generator only, to visit every entry often)
+PROJ_MAP = {
+    "PolarHistogram": {(0,): "RadialHistogram", (1,): "AzimuthalHistogram"},
+    "SphericalHistogram": {(1, 2): "SphericalSurfaceHistogram", (0,): "RadialHistogram"},
+    "CylindricalSurfaceHistogram": {(0,): "AzimuthalHistogram"},
+    "CylindricalHistogram": {(0,): "RadialHistogram", (1,): "AzimuthalHistogram", (0, 1): "PolarHistogram",
+                             (1, 2): "CylindricalSurfaceHistogram"},
 }
 
 
@@ -99,6 +137,23 @@ def fl(x):
 def do_read(h, rd):
     """read one geometry observable of the histogram (the value is thrown away: only the history matters)"""
     w, a = rd["what"], rd.get("axis", 0)
+    if w in EDGE_READS:
+        b = h.binning if h.ndim == 1 else h.binnings[a % h.ndim]
+        if w == "binning_edges":
+            return b.numpy_bins
+        if w == "binning_repr":
+            return repr(b)
+        if w == "consecutive":
+            return b.is_consecutive()
+        if w == "first_last":
+            return b.first_edge, b.last_edge
+        if w == "numpy_like":
+            return h.numpy_like
+        if w == "numpy_bins":
+            return h.numpy_bins
+        if w == "edges" or h.ndim == 1:
+            return h.edges
+        return h.get_bin_edges(a % h.ndim) if w == "bin_edges" else h.get_bin_edges()
     if h.ndim == 1:
         name = {"sizes": "bin_sizes", "densities": "densities", "total": "total_width", "widths": "bin_widths",
                 "left": "bin_left_edges", "right": "bin_right_edges", "centers": "bin_centers", "bins": "bins",
@@ -116,15 +171,83 @@ def do_read(h, rd):
     return {"widths": h.get_bin_widths, "left": h.get_bin_left_edges, "right": h.get_bin_right_edges, "centers": h.get_bin_centers}[w](a)
 
 
-def observe(h):
-    """every observable of the property, read from the histogram as it is now; `bins` are its own current bins"""
+def _try(f):
+    """a representation that may be legitimately unavailable (bins with a gap): its value, or the token REFUSED"""
+    try:
+        return f()
+    except Exception as e:
+        return "REFUSED: " + f"{type(e).__name__}: {e}"[:100]
+
+
+def _nums(x):
+    return x if isinstance(x, str) else [nrs(v) for v in np.asarray(x).ravel()]
+
+
+def observe_edges(h):
+    """every numpy-style edge representation of the histogram as it is now, per axis and in the mesh forms"""
+    nd = h.ndim
+    binnings = [h.binning] if nd == 1 else list(h.binnings)
+    per_axis = []
+    for a, b in enumerate(binnings):
+        rep = {"edges": _nums(_try(lambda: h.edges if nd == 1 else h.edges[a])),
+               "numpy_bins": _nums(_try(lambda: h.numpy_bins if nd == 1 else h.numpy_bins[a])),
+               "numpy_like": _nums(_try(lambda: h.numpy_like[1] if nd == 1 else
+                                        (h.numpy_like[1 + a] if len(h.numpy_like) == nd + 1 else h.numpy_like[1][a]))),
+               "binning.numpy_bins": _nums(_try(lambda: b.numpy_bins)),
+               "first": nrs(b.first_edge), "last": nrs(b.last_edge), "count": int(b.bin_count)}
+        if nd > 1:
+            rep["get_bin_edges"] = _nums(_try(lambda: h.get_bin_edges(a)))
+        per_axis.append(rep)
+    nl = _try(lambda: list(np.asarray(h.numpy_like[0]).shape))
+    out = {"axes": per_axis, "numpy_like_freq_shape": nl}
+    if nd > 1:
+        for key, f in (("edge", h.get_bin_edges), ("left", h.get_bin_left_edges), ("right", h.get_bin_right_edges)):
+            mesh = _try(f)
+            if isinstance(mesh, str):
+                out[key + "_mesh"] = mesh
+            else:
+                out[key + "_mesh"] = {"shapes": [list(np.asarray(m).shape) for m in mesh],
+                                      "first": [nrs(np.asarray(m).ravel()[0]) for m in mesh],
+                                      "last": [nrs(np.asarray(m).ravel()[-1]) for m in mesh]}
+    return out
+
+
+def observe_direct(h, own, kinds):
+    """what a DIRECTLY constructed histogram of the same class over the same bins (listed in the canonical order of the class,
+    the contents transposed accordingly) reports as bin measures -- given back in the axis order of `h`"""
+    name, nd = type(h).__name__, h.ndim
+    f = np.asarray(h.frequencies, dtype=float)
+    try:
+        if nd == 1:
+            d = type(h)(own[0].copy(), f.copy())
+            return {"sizes": _nums(d.bin_sizes), "total": nrs(d.total_width)}
+        perm = list(range(nd))
+        if name in KIND and kinds and sorted(kinds) == sorted(KIND[name]):
+            perm = [list(kinds).index(kd) for kd in KIND[name]]
+        kw = {"dimension": nd} if name == "HistogramND" else {}
+        d = type(h)([own[p_].copy() for p_ in perm], np.transpose(f, perm).copy(), **kw)
+        sizes = np.transpose(np.asarray(d.bin_sizes), np.argsort(perm))
+        return {"sizes": _nums(sizes), "total": nrs(d.total_size), "perm": perm}
+    except Exception as e:
+        return {"error": f"{type(e).__name__}: {e}"[:160]}
+
+
+def observe(h, kinds=None, direct=False):
+    """every observable of the property, read from the histogram as it is now; `bins` are its own current bins.
+    `kinds`: the coordinate kind of each of its axes when known from where the histogram comes from (by axis NAME)"""
     nd = h.ndim
     own = [np.asarray(h.bins).reshape(-1, 2)] if nd == 1 else [np.asarray(b).reshape(-1, 2) for b in h.bins]
     out = {"class": type(h).__name__, "bins": [[[nrs(l), nrs(r)] for l, r in b] for b in own],
-           "freq_shape": list(np.asarray(h.frequencies).shape), "dtype": str(np.asarray(h.frequencies).dtype)}
+           "freq_shape": list(np.asarray(h.frequencies).shape), "dtype": str(np.asarray(h.frequencies).dtype),
+           "axis_names": [str(n) for n in h.axis_names]}
+    if kinds is not None:
+        out["kinds"] = list(kinds)
     if any(len(b) == 0 for b in own):
         out["empty"] = True
         return out
+    out["edge_repr"] = observe_edges(h)
+    if direct:
+        out["direct"] = observe_direct(h, own, kinds)
     out.update({"bin_sizes": [nrs(x) for x in np.asarray(h.bin_sizes).ravel()],
                 "densities": [nrs(x) for x in np.asarray(h.densities).ravel()],
                 "freq": [nrs(x) for x in np.asarray(h.frequencies).ravel()],
@@ -169,21 +292,63 @@ def observe(h):
 def build(case):
     """the source histogram of a case, through the public constructors"""
     from physt import special_histograms as sp
-    from physt.binnings import FixedWidthBinning
+    from physt.binnings import FixedWidthBinning, NumpyBinning, StaticBinning
     from physt.histogram1d import Histogram1D
     from physt.histogram_nd import Histogram2D, HistogramND
+    if case.get("facade"):
+        return build_facade(case["facade"])
     klass = {"Histogram1D": Histogram1D, "Histogram2D": Histogram2D, "HistogramND": HistogramND}.get(case["class"]) or getattr(sp, case["class"])
     pairs = [np.array([[float(Fraction(l)), float(Fraction(r))] for l, r in ax]) for ax in case["axes"]]
     for a, spec in enumerate(case.get("adaptive") or []):
-        if spec:     # a fixed-width binning that grows when a value outside is filled; its bins are those listed in `axes`
+        if spec:     # a fixed-width binning (one that grows when a value outside is filled unless the spec says otherwise);
+            #          its bins are those listed in `axes`
             pairs[a] = FixedWidthBinning(bin_width=float(Fraction(spec["w"])), bin_count=len(case["axes"][a]),
-                                         min=float(Fraction(spec["min"])), adaptive=True)
+                                         min=float(Fraction(spec["min"])), adaptive=bool(spec.get("adaptive", True)))
+    for a, car in enumerate(case.get("carriers") or []):
+        # how the bins of an axis are handed over: (n, 2) pairs (the default), the n + 1 edges, or a binning object
+        if car in (None, "pairs", "fixed") or not isinstance(pairs[a], np.ndarray):
+            continue
+        edges = np.concatenate([pairs[a][:1, 0], pairs[a][:, 1]])
+        if car == "edges":
+            pairs[a] = edges
+        elif car == "edge_list":
+            pairs[a] = edges.tolist()
+        elif car == "static":
+            pairs[a] = StaticBinning(pairs[a])
+        elif car == "static_edges":
+            pairs[a] = StaticBinning(edges)
+        elif car == "numpy":
+            pairs[a] = NumpyBinning(edges)
+        else:
+            raise ValueError(car)
     f = np.array([float(Fraction(v)) for v in case["freq"]]).astype(case["dtype"]).reshape(case["shape"])
+    kw = {}
+    if case.get("axis_names"):
+        kw = {"axis_name": case["axis_names"][0]} if len(pairs) == 1 else {"axis_names": list(case["axis_names"])}
     if len(pairs) == 1:
-        return klass(pairs[0], f)
+        return klass(pairs[0], f, **kw)
     if case["class"] == "HistogramND":
-        return klass(pairs, f, dimension=len(pairs))
-    return klass(pairs, f)
+        return klass(pairs, f, dimension=len(pairs), **kw)
+    return klass(pairs, f, **kw)
+
+
+def build_facade(fc):
+    """a source made from data by the facades h1 / h2 (bins given as edges, a number, or by the name of a method)"""
+    import physt
+    cols = [np.array([float(Fraction(v)) for v in col]) for col in fc["data"]]
+    b = fc["bins"]
+    if b["kind"] == "edges":
+        e = [[float(Fraction(v)) for v in ax] for ax in b["edges"]]
+        args, kw = (e[0] if len(cols) == 1 else e,), {}
+    elif b["kind"] == "int":
+        args, kw = (int(b["n"]),), {}
+    elif b["kind"] == "quantile":
+        args, kw = ("quantile",), {"bin_count": int(b["n"])}
+    elif b["kind"] == "fixed_width":
+        args, kw = ("fixed_width",), {"bin_width": float(Fraction(b["w"]))}
+    else:
+        raise ValueError(b["kind"])
+    return (physt.h1 if len(cols) == 1 else physt.h2)(*cols, *args, **kw)
 
 
 def apply_op(h, op):
@@ -225,6 +390,18 @@ def apply_op(h, op):
     if kind == "projection":
         if nd == 1:
             return None
+        if "order" in op:
+            # the axes in the ORDER asked for (positions modulo the current dimension, the first mention of an axis counts),
+            # each referred to by its index (python or numpy integer) or by its name
+            order = []
+            for a in op["order"]:
+                if a % nd not in order:
+                    order.append(a % nd)
+            refs = []
+            for j, a in enumerate(order):
+                by = op["by"][j % len(op["by"])]
+                refs.append(str(h.axis_names[a]) if by == "name" else (np.int64(a) if by == "np" else int(a)))
+            return h.projection(*refs)
         axes = sorted({a % nd for a in op["axes"]})
         if len(axes) == nd:
             axes = axes[:-1]
@@ -233,12 +410,19 @@ def apply_op(h, op):
         shape = list(h.shape)
 
         def sl(spec, n):
+            if spec[0] == "a":
+                return slice(None)
             if spec[0] == "s":
                 start = spec[1] % n
                 stop = start + 1 + spec[2] % (n - start)
                 return slice(start if (start or spec[3]) else None, stop if (stop < n or spec[3]) else None)
             if spec[0] == "i":
                 return int(spec[1] % n)
+            if spec[0] == "m":          # a boolean mask (the pattern repeated over the bins; at least one bin is kept)
+                m = [bool(spec[1][i % len(spec[1])]) for i in range(n)]
+                if not any(m):
+                    m[spec[2] % n] = True
+                return np.array(m)
             return sorted({int(x % n) for x in spec[1]})
         if kind == "select":
             a = op["axis"] % nd
@@ -251,6 +435,9 @@ def apply_op(h, op):
             return None if isinstance(idx[0], int) else h[idx[0]]
         if all(isinstance(i, int) for i in idx) and len(idx) == nd:
             return None
+        if op.get("short"):             # fewer indices than axes: H[1:3], H[1:3, :] ...
+            idx = idx[:1 + (op["short"] - 1) % nd]
+            return h[idx[0]] if len(idx) == 1 and op.get("bare") else h[tuple(idx)]
         return h[tuple(idx)]
     if kind == "fill":
         kw = {"transformed": True} if isinstance(h, TransformedHistogramMixin) else {}
@@ -289,11 +476,13 @@ def resolve_points(h, values):
     return pts
 
 
-def is_full(klass, axes):
+def is_full(klass, axes, kinds=None):
     """the bins cover the whole angular range(s) and the radius starts at 0, without gaps (from the current bins)"""
     if klass not in KIND or len(KIND[klass]) != len(axes):
         return False
-    for kd, ax in zip(KIND[klass], axes):
+    if not kinds or sorted(kinds) != sorted(KIND[klass]):
+        kinds = KIND[klass]
+    for kd, ax in zip(kinds, axes):
         if any(ax[i][1] != ax[i + 1][0] for i in range(len(ax) - 1)):
             return False
         if kd == "r" and ax[0][0] != 0.0:
@@ -307,9 +496,9 @@ def is_full(klass, axes):
 
 class C16:
     ID = "C16"
-    N_QUICK = 400
-    N_THOROUGH = 8000
-    N_SEARCH = 300
+    N_QUICK = 500
+    N_THOROUGH = 10000
+    N_SEARCH = 375
     RULE = ("a histogram of every class (1-D, 2-D, ND up to 4 axes, radial, azimuthal, polar, spherical, sphere surface, "
             "cylindrical, cylinder surface) with irregular (also gapped, for plain classes also tiny-gap) bins — full angular "
             "ranges in a share of the cases — and arbitrary contents of every dtype (int16 contents whose running sum "
@@ -320,11 +509,30 @@ class C16:
             "1-3 derivations drawn by family (T; copy, * / scalar, + , normalize, also in place; merge_bins on any / all axes, "
             "projection, slicing, select; adaptive growth by fill / fill_n), more reads in between; every clause is evaluated on "
             "the result (and on a share of the intermediate results) from its OWN current bins and class. "
+            "Observed on every histogram as well: every numpy-style edge representation (edges, numpy_bins, get_bin_edges(axis), "
+            "the edge / left / right meshes, numpy_like, the binnings' numpy_bins / first_edge / last_edge / bin_count), which "
+            "for bins that touch must be  left edges + last right edge  of the histogram's OWN bins. "
+            "Every 5th case belongs to one of two more streams. stream:proj_order: cylindrical / spherical / polar / surface "
+            "(and plain) histograms, default / custom / rotated axis names, projected onto axis subsets in EVERY ORDER (by index, "
+            "numpy integer, name; chains of 1-3 projections, other derivations in between): each axis of the result is "
+            "identified by its NAME (its coordinate in the source) and must enter bin_sizes as that coordinate; a transformed "
+            "class must hold the coordinates it is defined for; bin_sizes / total equal those of the same class built directly "
+            "over the same bins; full-range totals. stream:warm_edges: sources over bins handed over as pairs / edges / lists / "
+            "StaticBinning / NumpyBinning / FixedWidthBinning or made by h1 / h2 (edges, bin count, quantile, fixed_width), "
+            "whose numpy-style edges were READ (nine kinds of read), then 1-3 selections (slices incl. H[1:3], H[:, 1:3], "
+            "masks, index lists, select; merge_bins / copy / T / projection in between) with more reads in between; the model "
+            "is asked for the edge representation of one axis of the result (or for its measures). stream:grid (both tiers, "
+            "seed-independent): all axis orders x index / name x 7 classes, two-step projection chains; carrier x edge read x "
+            "selection for 1-D, 2-D, polar and 3-D sources. "
             "non-trivial = more than one bin and non-zero contents (derived: at least one derivation succeeded); distinct = case hash")
     ASSUMPTIONS = ["libm cos is accurate to a few ulps: measures are compared with relative tolerance 1e-12"]
     EXTRA_TRUST = ["the theorems are over the real numbers (Mathlib); the float evaluation of the same formulas is compared with tolerance"]
 
     def gen_case(self, rng, k, tier):
+        # every fifth case belongs to one of the two newer streams; the other four keep the older 3 : 1 mix
+        if k % 5 == 4:
+            return self.gen_proj(rng) if (k // 5) % 2 == 0 else self.gen_warm(rng)
+        k = (k // 5) * 4 + k % 5
         if k % 4 == 1:
             return self.gen_derived(rng)
         klass = rng.choice(list(CLASSES))
@@ -364,6 +572,8 @@ class C16:
         if rng.random() >= p_any:
             return []
         rd = [w for w in READS if rng.random() < 0.5] or [rng.choice(READS)]
+        if rng.random() < 0.35:         # ... and the numpy-style edges (which a binning may keep once computed)
+            rd += rng.sample(EDGE_READS, rng.randint(1, 2))
         rng.shuffle(rd)
         return [{"what": w, "axis": rng.randint(0, 3)} for w in rd]
 
@@ -473,20 +683,284 @@ class C16:
                 "adaptive": adaptive, "freq": [rs(v) for v in vals], "dtype": dt, "full": full,
                 "reads": self.gen_reads(rng, 0.85), "ops": ops, "tags": tags}
 
+    # ------------------------------------------------------------------------------------- pieces of the newer streams
+    @staticmethod
+    def source_axes(rng, klass, d, full, nmin, nmax, distinct=True, gaps=0.0):
+        """bins of every axis of a source of class `klass` (different bin counts on different axes where possible, so that
+        a histogram whose axes were re-arranged cannot be mistaken for the original)"""
+        counts = list(range(nmin, nmax + 1))
+        rng.shuffle(counts)
+        counts = (counts * d)[:d] if distinct else [rng.randint(nmin, nmax) for _ in range(d)]
+        pairs = []
+        for a in range(d):
+            kd = KIND[klass][a] if klass in KIND else "x"
+            if klass in KIND and klass != "Histogram1D":
+                e = axis_edges(rng, kd, full, n=counts[a])
+                pairs.append([[e[i], e[i + 1]] for i in range(len(e) - 1)])
+            else:
+                # dyadic, irregular, rising edges; a share of the axes with a gap
+                e, x = [], rng.randint(-16, 16) * 0.25
+                for _ in range(counts[a] + 1):
+                    e.append(x)
+                    x += rng.choice([0.25, 0.5, 0.75, 1.0, 1.5, 2.0, 4.0])
+                p = [[e[i], e[i + 1]] for i in range(len(e) - 1)]
+                if len(p) > 1 and rng.random() < gaps:
+                    j = rng.randrange(len(p) - 1)
+                    p[j][1] -= 0.125
+                pairs.append(p)
+        return pairs
+
+    @staticmethod
+    def contents(rng, shape):
+        size = int(np.prod(shape))
+        dt = rng.choice(["int64", "float64", "int16", "int32", "float32"])
+        vals = [rng.randint(0, 9) for _ in range(size)] if dt.startswith("int") else [rng.randint(0, 40) / 4 for _ in range(size)]
+        vals[rng.randrange(size)] = rng.randint(1, 9)
+        return dt, vals
+
+    @staticmethod
+    def gen_edge_reads(rng, p_any, force=False):
+        """reads that compute the numpy-style edges (mostly), mixed with the other geometry reads"""
+        if not force and rng.random() >= p_any:
+            return []
+        rd = rng.sample(EDGE_READS, rng.randint(1, 3)) + [w for w in READS if rng.random() < 0.2]
+        rng.shuffle(rd)
+        return [{"what": w, "axis": rng.randint(0, 3)} for w in rd]
+
+    # ------------------------------------------------------------------------------------------ stream "proj_order"
+    def gen_proj(self, rng, klass=None):
+        """projections of the transformed N-d classes (and of plain ones) onto every axis subset in every ORDER, axes given by
+        index or by name, chains of projections, a derivation before / between them in a share of the cases"""
+        klass = klass or rng.choice(["CylindricalHistogram"] * 4 + ["SphericalHistogram"] * 4 + ["PolarHistogram"] * 2
+                                    + ["SphericalSurfaceHistogram", "CylindricalSurfaceHistogram", "HistogramND", "Histogram2D"])
+        d = CLASSES[klass] or rng.choice([3, 4])
+        plain = klass in PLAIN
+        full = (not plain) and rng.random() < 0.4
+        pairs = self.source_axes(rng, klass, d, full, 1 if rng.random() < 0.2 else 2, 4 if d <= 3 else 3)
+        shape = [len(p) for p in pairs]
+        dt, vals = self.contents(rng, shape)
+        tags = ["stream:proj_order", "class:" + klass]
+        names = None
+        r = rng.random()
+        if r < 0.2:
+            names = rng.sample(["a", "b", "c", "u", "v", "w", "t"], d)          # names that say nothing
+            tags.append("names:custom")
+        elif r < 0.3 and not plain:
+            base = ["rho" if klass.startswith("Cyl") and kd == "r" else kd for kd in KIND[klass]]
+            names = base[1:] + base[:1]                                         # the usual names on the wrong axes
+            tags.append("names:rotated")
+        nd, ops, cur = d, [], klass
+
+        def projection(nd, cur):
+            # (only to steer the choice: which subsets a class maps to another transformed class)
+            keys = [k_ for k_ in PROJ_MAP.get(cur, {}) if len(k_) < nd or len(k_) > 1]
+            if keys and rng.random() < 0.65:
+                order = list(rng.choice(sorted(keys) + [k_ for k_ in sorted(keys) if len(k_) > 1] * 2))
+            else:
+                size = max(1, min(rng.choice([1, 2, 2, 2, 3]), nd))
+                order = sorted(rng.sample(range(nd), size))
+            if len(order) > 1 and rng.random() < 0.7:
+                while order == sorted(order):
+                    rng.shuffle(order)
+            by = rng.choice([["index"], ["name"], ["name"], ["index", "name"], ["name", "index"], ["np"]])
+            new = PROJ_MAP.get(cur, {}).get(tuple(sorted(order)), "plain")
+            return {"op": "projection", "order": order, "by": by}, len(order), new
+
+        n_proj = rng.choice([1, 1, 2, 2, 3])
+        for i in range(n_proj):
+            if nd == 1:
+                break
+            if rng.random() < 0.3:
+                kind = rng.choice(["copy", "mul", "merge", "slice", "normalize", "add"])
+                op = {"op": kind}
+                if kind == "mul":
+                    op["k"], op["int"] = rng.choice(["2", "3/2", "1/2"]), False
+                elif kind == "merge":
+                    op["amount"], op["axis"], op["inplace"] = 2, rng.choice([None, 0, 1, 2]), rng.random() < 0.4
+                elif kind == "slice":
+                    op["index"] = [["s", rng.randint(0, 5), rng.randint(0, 5), rng.random() < 0.5] if rng.random() < 0.5 else ["a"]
+                                   for _ in range(4)]
+                elif kind == "normalize":
+                    op["inplace"], op["percent"] = rng.random() < 0.4, False
+                op["reads"], op["observe"] = self.gen_reads(rng, 0.3), False
+                ops.append(op)
+            op, nd, cur = projection(nd, cur)
+            op["reads"] = self.gen_reads(rng, 0.4)
+            op["observe"] = i < n_proj - 1 and nd > 1 and rng.random() < 0.8
+            ops.append(op)
+        case = {"kind": "derived", "class": klass, "axes": [[[rs(l), rs(r)] for l, r in p] for p in pairs], "shape": shape,
+                "adaptive": [None] * d, "freq": [rs(v) for v in vals], "dtype": dt, "full": full, "direct": True,
+                "reads": self.gen_reads(rng, 0.5), "ops": ops, "tags": tags}
+        if names:
+            case["axis_names"] = names
+        return case
+
+    # ------------------------------------------------------------------------------------------ stream "warm_edges"
+    def gen_warm(self, rng):
+        """selections (slices, masks, index lists, select; chains of them, with merge_bins / copies / projections in between)
+        of histograms over every kind of binning whose numpy-style edges were READ before"""
+        fam = rng.choice(["1d", "1d", "1d", "2d", "2d", "2d", "nd", "transformed", "facade", "facade"])
+        tags = ["stream:warm_edges"]
+        facade, adaptive, carriers = None, None, None
+        if fam == "facade":
+            two = rng.random() < 0.4
+            klass, d = ("Histogram2D", 2) if two else ("Histogram1D", 1)
+            n = rng.randint(8, 14)
+            cols = [rng.sample([i / 8 for i in range(-40, 80)], n) for _ in range(d)]        # distinct values: no tied quantiles
+            bk = rng.choice(["edges", "quantile", "int", "fixed_width"])
+            if bk == "edges":
+                ed = []
+                for col in cols:
+                    lo = min(col) - 0.5
+                    e = [lo]
+                    for _ in range(rng.randint(3, 6)):
+                        e.append(e[-1] + rng.choice([0.5, 1.0, 1.5, 2.0, 3.0, 4.0]))
+                    ed.append([rs(x) for x in e])
+                bins = {"kind": "edges", "edges": ed}
+            elif bk == "fixed_width":
+                bins = {"kind": "fixed_width", "w": rng.choice(["1/2", "1", "2", "5/2"])}
+            else:
+                bins = {"kind": bk, "n": rng.randint(3, 6)}
+            facade = {"data": [[rs(v) for v in col] for col in cols], "bins": bins}
+            tags += ["class:" + klass, "carrier:facade_" + bk]
+            pairs, shape, dt, vals, full = [], [], "int64", [], False
+        else:
+            klass = {"1d": "Histogram1D", "2d": "Histogram2D", "nd": "HistogramND"}.get(fam) or rng.choice(
+                ["PolarHistogram", "CylindricalHistogram", "SphericalHistogram", "SphericalSurfaceHistogram",
+                 "CylindricalSurfaceHistogram", "RadialHistogram", "AzimuthalHistogram"])
+            d = CLASSES[klass] or 3
+            plain = klass in PLAIN
+            full = (not plain) and rng.random() < 0.3
+            pairs = self.source_axes(rng, klass, d, full, 3, 6 if d == 1 else (5 if d == 2 else 4), distinct=d > 1,
+                                     gaps=0.15 if plain else 0.0)
+            adaptive, carriers = [None] * d, []
+            for a in range(d):
+                touching = all(pairs[a][i][1] == pairs[a][i + 1][0] for i in range(len(pairs[a]) - 1))
+                kd = KIND[klass][a] if klass in KIND else "x"
+                car = rng.choice(["pairs", "edges", "edge_list", "static", "static_edges", "numpy", "fixed"] if touching
+                                 else ["pairs", "static"])
+                if car == "fixed":
+                    w = rng.choice([0.25, 0.5, 1.0, 2.0])
+                    mn = 0.0 if kd not in ("x", "z") else rng.randint(-8, 8) * 0.25
+                    if kd in ("phi", "theta") or (full and kd == "r"):
+                        w = 0.5
+                    pairs[a] = [[mn + i * w, mn + (i + 1) * w] for i in range(len(pairs[a]))]
+                    adaptive[a] = {"min": rs(mn), "w": rs(w), "adaptive": rng.random() < 0.3}
+                    full = False
+                carriers.append(car)
+                tags.append("carrier:" + car)
+            shape = [len(p) for p in pairs]
+            dt, vals = self.contents(rng, shape)
+            tags.append("class:" + klass)
+            if any(any(p[i][1] != p[i + 1][0] for i in range(len(p) - 1)) for p in pairs):
+                tags.append("gapped")
+        nd = d
+        ops = []
+
+        def span():
+            return ["s", rng.randint(0, 6), rng.randint(0, 6), rng.random() < 0.5]
+
+        def selection(nd):
+            """one selection of a histogram of `nd` axes -> (op, dimension of the result)"""
+            r = rng.random()
+            if nd == 1:
+                if r < 0.5:
+                    return {"op": "slice", "index": [span()] * 1 + [["a"]] * 3, "sel": "slice"}, 1
+                if r < 0.65:
+                    return {"op": "select", "axis": 0, "index": span(), "sel": "select"}, 1
+                if r < 0.85:
+                    if rng.random() < 0.6:          # a run of kept bins (the result's bins touch when the source's do)
+                        a_, b_ = sorted(rng.sample(range(7), 2))
+                        bits = [a_ <= i < b_ for i in range(6)]
+                    else:
+                        bits = [rng.random() < 0.6 for _ in range(6)]
+                    return {"op": "slice", "index": [["m", bits, rng.randint(0, 5)]] + [["a"]] * 3, "sel": "mask"}, 1
+                if rng.random() < 0.6:
+                    a_ = rng.randint(0, 4)
+                    lst = list(range(a_, a_ + rng.randint(1, 3)))
+                else:
+                    lst = [rng.randint(0, 5) for _ in range(rng.randint(1, 3))]
+                return {"op": "slice", "index": [["l", lst]] + [["a"]] * 3, "sel": "list"}, 1
+            t = rng.randrange(nd)
+            if r < 0.3:
+                return {"op": "select", "axis": t, "index": span(), "sel": "select"}, nd
+            if r < 0.65:                            # one axis sliced, the others whole: H[:, 1:3]
+                idx = [["a"]] * 4
+                idx[t] = span()
+                op = {"op": "slice", "index": idx, "sel": "slice_one_axis"}
+                if t == 0 and rng.random() < 0.5:
+                    op["short"], op["bare"] = 1, rng.random() < 0.5      # H[1:3] / H[1:3,]
+                return op, nd
+            idx, ints = [], 0
+            for a in range(4):
+                q = rng.random()
+                if q < 0.2 and a < nd and ints < nd - 1:
+                    idx.append(["i", rng.randint(0, 5)])
+                    ints += 1
+                else:
+                    idx.append(span() if q < 0.8 else ["a"])
+            return {"op": "slice", "index": idx, "sel": "slice_many"}, nd - ints
+
+        n_ops = rng.choice([1, 1, 2, 2, 3])
+        for i in range(n_ops):
+            q = rng.random()
+            if q < 0.7 or i == n_ops - 1:
+                op, nd = selection(nd)
+            elif q < 0.85:
+                op = {"op": "merge", "amount": 2, "axis": rng.choice([None, 0, 1, 2]), "inplace": rng.random() < 0.4}
+            elif q < 0.9:
+                op = {"op": "copy"}
+            elif q < 0.95 and nd == 2 and klass == "Histogram2D":
+                op = {"op": "T"}
+            elif nd > 1:
+                order = rng.sample(range(nd), rng.randint(1, nd - 1))
+                op, nd = {"op": "projection", "order": order, "by": [rng.choice(["index", "name"])]}, len(order)
+            else:
+                op = {"op": "mul", "k": "2", "int": False}
+            # the reads between the operations are what makes the NEXT selection start from a histogram already looked at
+            op["reads"] = self.gen_edge_reads(rng, 0.6)
+            op["observe"] = rng.random() < 0.2
+            ops.append(op)
+        reads = self.gen_edge_reads(rng, 0.9)
+        tags.append("source_edges:read" if any(r_["what"] in EDGE_READS for r_ in reads) else "source_edges:cold")
+        case = {"kind": "derived", "class": klass, "axes": [[[rs(l), rs(r)] for l, r in p] for p in pairs], "shape": shape,
+                "adaptive": adaptive or [None] * d, "carriers": carriers, "freq": [rs(v) for v in vals], "dtype": dt, "full": full,
+                "reads": reads, "ops": ops, "tags": tags, "model": rng.choice(["edges", "edges", "measure"]),
+                "model_axis": rng.randint(0, 3)}
+        if facade:
+            case["facade"] = facade
+        return case
+
     def run_derived(self, case):
         h = build(case)
         read_errors, steps = [], []
+        # the coordinate of every axis of the source, by axis NAME: a derived histogram's axes are identified by their names
+        # (the position in the class says nothing once a derivation may list the axes in another order)
+        src_kinds = KIND.get(type(h).__name__) or ["x"] * h.ndim
+        names = [str(n) for n in h.axis_names]
+        kindmap = dict(zip(names, src_kinds)) if len(set(names)) == len(names) == len(src_kinds) else {}
+        direct = bool(case.get("direct"))
+
+        def gapped(hh, rd):
+            bb = [np.asarray(hh.bins).reshape(-1, 2)] if hh.ndim == 1 else [np.asarray(b).reshape(-1, 2) for b in hh.bins]
+            if hh.ndim > 1 and rd["what"] in ("binning_edges", "binning_repr", "consecutive", "first_last"):
+                bb = [bb[rd.get("axis", 0) % hh.ndim]]
+            return any(len(b) == 0 or any(b[i][1] != b[i + 1][0] for i in range(len(b) - 1)) for b in bb)
 
         def reads(hh, rds, where):
             for rd in rds:
                 try:
                     do_read(hh, rd)
                 except Exception as e:
+                    if rd["what"] in EDGE_READS and gapped(hh, rd):
+                        continue        # the numpy-style edges of bins with a gap (or of no bins) need not exist
                     read_errors.append(f"{where}: reading {rd['what']} of a {type(hh).__name__}: {type(e).__name__}: {e}"[:200])
 
         def obs(hh):
+            kinds = [kindmap.get(str(n)) for n in hh.axis_names]
+            kinds = None if (not kindmap or None in kinds) else kinds
             try:
-                return observe(hh)
+                return observe(hh, kinds=kinds, direct=direct)
             except Exception as e:
                 return {"class": type(hh).__name__, "error": f"{type(e).__name__}: {e}"[:200]}
 
@@ -523,18 +997,54 @@ class C16:
         out = observe(h)
         return {"outs": out, "log": []}
 
+    @staticmethod
+    def model_perm(o):
+        """positions of the result's axes in the canonical order of its class (identity unless the axes are known to stand
+        in another order); None when the class does not hold the coordinates it is defined for"""
+        cls, kinds = o["class"], o.get("kinds")
+        if canonical(cls, kinds):
+            return list(range(len(o["bins"])))
+        if sorted(kinds) != sorted(KIND[cls]):
+            return None
+        return [list(kinds).index(kd) for kd in KIND[cls]]
+
     def model_case(self, case, io):
         if case.get("kind") == "derived":
             # the model has no derivations: it is asked for the measures of the RESULT's own bins and class
             o = io["outs"]
             if "error" in o or o.get("empty"):
                 return None
-            return {"kind": "measure", "class": "HistogramND" if o["class"] == "Histogram2D" else o["class"], "axes": o["bins"]}
+            if case.get("model") == "edges":
+                # ... or for the numpy-style representation of the bins of one axis of the result
+                return {"kind": "binning", "what": "repr", "bins": o["bins"][case.get("model_axis", 0) % len(o["bins"])]}
+            perm = self.model_perm(o)
+            if perm is None:
+                return None
+            return {"kind": "measure", "class": "HistogramND" if o["class"] == "Histogram2D" else o["class"],
+                    "axes": [o["bins"][p_] for p_ in perm]}
         c = {"kind": "measure", "class": "HistogramND" if case["class"] == "Histogram2D" else case["class"], "axes": case["axes"]}
         return c
 
     def diff(self, case, model_ok, io):
+        if case.get("kind") == "derived" and case.get("model") == "edges":
+            o = io["outs"]
+            a = case.get("model_axis", 0) % len(o["bins"])
+            rep = o["edge_repr"]["axes"][a]
+            d = []
+            if model_ok["count"] != rep["count"]:
+                d.append(f"axis {a}: bin count: model {model_ok['count']} impl {rep['count']}")
+            if model_ok["consecutive"]:
+                if Fraction(model_ok["first"]) != Fraction(rep["first"]) or Fraction(model_ok["last"]) != Fraction(rep["last"]):
+                    d.append(f"axis {a}: first / last edge: model {model_ok['first']}, {model_ok['last']} impl {rep['first']}, {rep['last']}")
+                got = rep["binning.numpy_bins"]
+                if isinstance(got, str) or [Fraction(x) for x in got] != [Fraction(x) for x in model_ok["edges"]]:
+                    d.append(f"axis {a}: numpy-style edges: model {model_ok['edges'][:8]} impl {got if isinstance(got, str) else got[:8]}")
+            return d
         got = io["outs"]["bin_sizes"]
+        if case.get("kind") == "derived":
+            perm = self.model_perm(io["outs"])
+            if perm != sorted(perm):        # the model lists the cells in the canonical axis order of the class
+                got = [nrs(x) for x in np.transpose(np.array([fl(x) for x in got]).reshape(io["outs"]["shape_sizes"]), perm).ravel()]
         d = []
         if len(model_ok) != len(got):
             return [f"bin_sizes length: model {len(model_ok)} impl {len(got)}"]
@@ -560,20 +1070,32 @@ class C16:
                 if ob["freq_shape"] != shape:
                     fails.append(f"size_shape: [{label}; {ob['class']}] frequencies have shape {ob['freq_shape']}, the bins {shape}")
                     continue
-                for f in self.clauses(ob["class"], axes, shape, ob, is_full(ob["class"], axes), approx=True):
+                kinds = ob.get("kinds")
+                for f in self.clauses(ob["class"], axes, shape, ob, is_full(ob["class"], axes, kinds), approx=True, kinds=kinds):
                     sig, _, rest = f.partition(":")
                     fails.append(f"{sig}: [{label}; {ob['class']} {'x'.join(map(str, shape))}]{rest}")
             return fails[:6]
         axes = [[(float(Fraction(l)), float(Fraction(r))) for l, r in ax] for ax in case["axes"]]
         return self.clauses(case["class"], axes, case["shape"], o, case["full"])[:6]
 
-    def clauses(self, cls, axes, shape, o, full, approx=False):
-        """every clause of the property on one observed histogram of class `cls` whose bins are `axes`"""
+    def clauses(self, cls, axes, shape, o, full, approx=False, kinds=None):
+        """every clause of the property on one observed histogram of class `cls` whose bins are `axes`.
+        `kinds`: the coordinate of each axis where it is known from the histogram's origin (axis names); a transformed class
+        must hold exactly the coordinates it is defined for, and each axis enters the measure as ITS coordinate"""
         fails = []
         import itertools
         cells = list(itertools.product(*axes))
         klass = "HistogramND" if cls == "Histogram2D" else cls
-        sizes = [measure_py(klass, c) for c in cells]
+        r_axis = 0
+        if canonical(klass, kinds):
+            sizes = [measure_py(klass, c) for c in cells]
+        elif sorted(kinds) != sorted(KIND[klass]):
+            fails.append(f"class_coordinates: a {cls} whose axes {o.get('axis_names')} hold the coordinates {kinds}: "
+                         f"the class measures {KIND[klass]}")
+            sizes = [measure_py(klass, c) for c in cells]
+        else:
+            sizes = [measure_by_kinds(klass, list(kinds), c) for c in cells]
+            r_axis = list(kinds).index("r") if "r" in kinds else 0
         bs = [fl(x) for x in o["bin_sizes"]]
         tol = lambda a, b: abs(a - b) <= 1e-11 * max(abs(a), abs(b), 1e-6)
         if o["shape_sizes"] != shape:
@@ -594,11 +1116,22 @@ class C16:
             fails.append(f"total_measure: {key} = {fl(o[key])}, the covered region measures {covered}")
         total_measure = sum(bs)
         if full and cls in KIND:
-            R = axes[0][-1][1]
+            R = axes[r_axis][-1][1]
             exp = {"PolarHistogram": math.pi * R * R, "RadialHistogram": math.pi * R * R,
                    "SphericalSurfaceHistogram": 4 * math.pi, "SphericalHistogram": 4 / 3 * math.pi * R ** 3}.get(cls)
-            if exp is not None and axes[0][0][0] == 0.0 and not tol(total_measure, exp) and abs(total_measure - exp) > 1e-9:
+            if exp is not None and axes[r_axis][0][0] == 0.0 and not tol(total_measure, exp) and abs(total_measure - exp) > 1e-9:
                 fails.append(f"full_range_total: the bin measures sum to {total_measure}, expected {exp}")
+        # the same class built directly over the same bins reports the same measures
+        dr = o.get("direct")
+        if dr and "error" not in dr and o["shape_sizes"] == shape:
+            ds = [fl(x) for x in dr["sizes"]]
+            if len(ds) != len(bs) or not all(tol(a, b) for a, b in zip(bs, ds)):
+                k = next((i for i, (a, b) in enumerate(zip(bs, ds)) if not tol(a, b)), 0)
+                fails.append(f"direct_sizes: {cls} cell {cells[k] if k < len(cells) else k}: bin_size {bs[k] if k < len(bs) else None}, "
+                             f"a {cls} built directly over the same bins reports {ds[k] if k < len(ds) else None}")
+            dkey = "total_width" if len(axes) == 1 else "total_size"
+            if not tol(fl(o[dkey]), fl(dr["total"])) and abs(fl(o[dkey]) - fl(dr["total"])) > 1e-9:
+                fails.append(f"direct_total: {dkey} = {fl(o[dkey])}, a {cls} built directly over the same bins reports {fl(dr['total'])}")
         # additivity: merging runs of two adjacent bins along an axis adds their measures (and is refused across a gap)
         for mg in o.get("merged", []):
             a = mg["axis"]
@@ -649,6 +1182,7 @@ class C16:
                 if fl(c) != (l + r) / 2 or fl(w) != r - l:
                     fails.append(f"centre_width: axis {a} bin [{l},{r}] centre {fl(c)} width {fl(w)}")
                     break
+        fails += self.edge_clauses(axes, shape, o.get("edge_repr"))
         if len(axes) == 1:
             if all(math.isfinite(x) for x in f):
                 run, cum, mag = Fraction(0), [], Fraction(0)
@@ -680,6 +1214,58 @@ class C16:
                 fails.append("mesh_widths: last mesh entry is not the last bin width of every axis")
         return fails
 
+    @staticmethod
+    def edge_clauses(axes, shape, er):
+        """the numpy-style edge representations describe the histogram's OWN bins: for an axis whose bins touch exactly,
+        every representation is the n + 1 numbers  left edges + last right edge  (so centres / widths derived from it are
+        those of the bins); the mesh forms have one more point than bins along every axis.  Nothing is demanded for an axis
+        with a gap (the representation need not exist there; what it holds inside physt's closeness tolerance is not pinned)."""
+        if not er:
+            return []
+        fails = []
+        touching = [all(ax[i][1] == ax[i + 1][0] for i in range(len(ax) - 1)) for ax in axes]
+        for a, (ax, rep) in enumerate(zip(axes, er["axes"])):
+            if rep["count"] != len(ax):
+                fails.append(f"edge_repr: axis {a}: its binning counts {rep['count']} bins, the histogram has {len(ax)}")
+            if not touching[a]:
+                continue
+            want = [ax[0][0]] + [r for _, r in ax]
+            for key in ("edges", "numpy_bins", "get_bin_edges", "numpy_like", "binning.numpy_bins"):
+                if key not in rep or (key != "binning.numpy_bins" and not all(touching)):
+                    continue        # an N-d histogram makes the edges of all its axes at once: a gap on another axis refuses them
+                got = rep[key]
+                if isinstance(got, str):
+                    fails.append(f"edge_repr: axis {a}: {key} is not available for {len(ax)} bins that touch: {got}")
+                    break
+                got = [fl(x) for x in got]
+                if got != want:
+                    fails.append(f"edge_repr: axis {a}: {key} = {got[:8]} ({len(got)} edges) but the {len(ax)} bins are "
+                                 f"{[list(b) for b in ax][:6]} (left edges + last right edge = {want[:8]})")
+                    break
+            if fl(rep["first"]) != want[0] or fl(rep["last"]) != want[-1]:
+                fails.append(f"edge_repr: axis {a}: first_edge / last_edge of the binning are {fl(rep['first'])}, {fl(rep['last'])}, "
+                             f"the bins span {want[0]} .. {want[-1]}")
+        if all(touching):
+            if er["numpy_like_freq_shape"] != shape:
+                fails.append(f"edge_repr: numpy_like holds contents of shape {er['numpy_like_freq_shape']}, the histogram is {shape}")
+            for key, inc, pick in (("edge_mesh", 1, None), ("left_mesh", 0, 0), ("right_mesh", 0, 1)):
+                mesh = er.get(key)
+                if mesh is None:
+                    continue
+                if isinstance(mesh, str):
+                    fails.append(f"edge_repr: {key} is not available although all bins touch: {mesh}")
+                    continue
+                exp_shape = [n + inc for n in shape]
+                if any(sh != exp_shape for sh in mesh["shapes"]) or len(mesh["shapes"]) != len(shape):
+                    fails.append(f"edge_repr: {key} has shapes {mesh['shapes']}, a histogram of shape {shape} has {exp_shape}")
+                    continue
+                first = [ax[0][0] if pick in (None, 0) else ax[0][1] for ax in axes]
+                last = [ax[-1][1] if pick in (None, 1) else ax[-1][0] for ax in axes]
+                if [fl(x) for x in mesh["first"]] != first or [fl(x) for x in mesh["last"]] != last:
+                    fails.append(f"edge_repr: {key} runs from {[fl(x) for x in mesh['first']]} to {[fl(x) for x in mesh['last']]}, "
+                                 f"the bins from {first} to {last}")
+        return fails[:3]
+
     def nontrivial(self, case, io):
         if case.get("kind") == "derived":
             o = io["outs"]
@@ -693,18 +1279,143 @@ class C16:
             t.append("reads:warm" if case["reads"] else "reads:none")
             t += ["op:" + st["op"] + ("" if st["ret"] == "ok" else ":" + st["ret"]) for st in o["steps"]]
             t.append("result:" + o["class"])
+            for op, st in zip(case["ops"], o["steps"]):
+                if st["ret"] != "ok":
+                    continue
+                if "sel" in op:
+                    t.append("sel:" + op["sel"])
+                if "order" in op:
+                    asc = list(op["order"]) == sorted(op["order"])
+                    t.append("order:ascending" if asc else "order:other")
+                    t.append("projected_to:" + st["class"] + ("" if asc else ":order_other"))
+                    t += ["axes_by:" + b for b in set(op["by"])]
+            if "model" in case:
+                t.append("model:" + case["model"])
+            if case.get("direct") and "direct" in o:
+                t.append("direct:" + ("n/a" if "error" in o["direct"] else "compared"))
         return t
 
     def matches_known(self, finding, case):
         return True
 
+    # ------------------------------------------------------------------------------------------------- fixed grids
+    GRID_AXES = {   # full angular ranges, different bin counts on different axes, dyadic radii / heights
+        "r": [0.0, 0.5, 1.5], "phi": [0.0, 1.0, 2.5, 4.0, 2 * math.pi], "theta": [0.0, 0.75, 2.0, math.pi],
+        "z": [-1.0, 0.0, 2.0, 2.5, 4.0, 5.0], "x": [0.0, 1.0, 3.0, 7.0, 15.0, 31.0, 32.0],
+    }
+
+    def grid_case(self, klass, ops, reads=(), carriers=None, tags=(), n_x=None, **extra):
+        kinds = KIND.get(klass) or ["x"] * (CLASSES[klass] or 3)
+        pairs = []
+        for a, kd in enumerate(kinds):
+            e = self.GRID_AXES[kd]
+            if kd == "x":
+                e = [v + a for v in e[:(n_x or [6, 4, 3])[a] + 1 if not isinstance(n_x, int) else n_x + 1]]
+            pairs.append([[e[i], e[i + 1]] for i in range(len(e) - 1)])
+        shape = [len(p) for p in pairs]
+        size = int(np.prod(shape))
+        adaptive = [None] * len(pairs)
+        for a, car in enumerate(carriers or []):
+            if car == "fixed":          # regular bins of width 1/2 with as many bins as the irregular axis had
+                pairs[a] = [[a + i * 0.5, a + (i + 1) * 0.5] for i in range(shape[a])]
+                adaptive[a] = {"min": rs(float(a)), "w": "1/2", "adaptive": False}
+        case = {"kind": "derived", "class": klass, "axes": [[[rs(l), rs(r)] for l, r in p] for p in pairs], "shape": shape,
+                "adaptive": adaptive, "freq": [rs(1 + (7 * i) % 5) for i in range(size)], "dtype": "int64",
+                "full": klass not in PLAIN, "reads": [dict(r) for r in reads], "ops": ops,
+                "tags": ["stream:grid", "class:" + klass] + list(tags)}
+        if carriers:
+            case["carriers"] = list(carriers)
+        case.update(extra)
+        return case
+
+    def exhaustive_cases(self, tier):
+        """(both tiers, independent of the seed)  (1) every transformed N-d class and the plain ones projected onto every axis
+        subset in every order, by index and by name, and every two-axis projection of the 3-d classes projected once more;
+        (2) every way of handing bins over x every read of the numpy-style edges x every selection, 1-D and 2-D, and
+        two-step chains with the edges read in between"""
+        import itertools
+        for klass in ("CylindricalHistogram", "SphericalHistogram", "PolarHistogram", "SphericalSurfaceHistogram",
+                      "CylindricalSurfaceHistogram", "HistogramND", "Histogram2D"):
+            nd = CLASSES[klass] or 3
+            for m in range(1, nd + 1):
+                for order in itertools.permutations(range(nd), m):
+                    for by in ("index", "name"):
+                        yield self.grid_case(klass, [{"op": "projection", "order": list(order), "by": [by], "reads": [], "observe": False}],
+                                             tags=["grid:projection_orders"], direct=True)
+                    if nd == 3 and m == 2:
+                        for second in ([0], [1], [1, 0]):
+                            yield self.grid_case(klass, [
+                                {"op": "projection", "order": list(order), "by": ["name"], "reads": [], "observe": True},
+                                {"op": "projection", "order": second, "by": ["index"], "reads": [], "observe": False}],
+                                tags=["grid:projection_chains"], direct=True)
+        span = ["s", 1, 2, True]                                    # [1:4]
+        sel1 = {"slice": {"op": "slice", "index": [span]}, "mask": {"op": "slice", "index": [["m", [False, True, True, True, False, False], 0]]},
+                "list": {"op": "slice", "index": [["l", [1, 2, 3]]]}, "select": {"op": "select", "axis": 0, "index": span}}
+        for car in ("pairs", "edges", "edge_list", "static", "static_edges", "numpy", "fixed"):
+            for rd in EDGE_READS:
+                for name, op in sel1.items():
+                    yield self.grid_case("Histogram1D", [dict(op, reads=[], observe=False, sel=name)], reads=[{"what": rd, "axis": 0}],
+                                         carriers=[car], tags=["grid:warm_selection", "carrier:" + car], model="edges", model_axis=0)
+            for first, second in (("slice", "slice"), ("merge", "slice"), ("slice", "mask"), ("mask", "slice")):
+                ops = [dict(sel1[x], sel=x) if x != "merge" else {"op": "merge", "amount": 2, "axis": None, "inplace": False}
+                       for x in (first, second)]
+                ops[1] = dict(ops[1], index=[["s", 0, 1, True]]) if second == "slice" else ops[1]
+                for o_ in ops:
+                    o_.update(reads=[{"what": "edges", "axis": 0}], observe=False)
+                ops[-1]["reads"] = []
+                yield self.grid_case("Histogram1D", ops, reads=[{"what": "numpy_bins", "axis": 0}], carriers=[car],
+                                     tags=["grid:warm_chain", "carrier:" + car], model="edges", model_axis=0)
+        s2 = ["s", 1, 1, True]                                      # [1:3]
+        sel2 = {"H[1:3]": {"op": "slice", "index": [s2, ["a"]], "short": 1, "bare": True},
+                "H[1:3,:]": {"op": "slice", "index": [s2, ["a"]]}, "H[:,1:3]": {"op": "slice", "index": [["a"], s2]},
+                "H[1:3,1:]": {"op": "slice", "index": [s2, ["s", 1, 5, False]]},
+                "select(0)": {"op": "select", "axis": 0, "index": s2}, "select(1)": {"op": "select", "axis": 1, "index": s2}}
+        for klass, cars in (("Histogram2D", ("pairs", "static", "numpy", "fixed")), ("PolarHistogram", ("static",)),
+                            ("HistogramND", ("pairs",))):
+            nd = CLASSES[klass] or 3
+            for car in cars:
+                for rd in EDGE_READS:
+                    for name, op in sel2.items():
+                        ax = 1 if name in ("H[:,1:3]", "select(1)") else 0
+                        op = dict(op, index=op["index"] + [["a"]] * (nd - 2)) if op["op"] == "slice" else op
+                        yield self.grid_case(klass, [dict(op, reads=[], observe=False, sel=name)], reads=[{"what": rd, "axis": ax}],
+                                             carriers=[car] * nd, tags=["grid:warm_selection", "carrier:" + car],
+                                             model="edges", model_axis=ax, n_x=[4, 5, 3])
+
     def neighbours(self, case):
-        return []
+        """of a history with projections: the same history with the axes of every projection in every other order;
+        of a history with selections: the same history with each read of the numpy-style edges put before every operation"""
+        import itertools
+        if case.get("kind") != "derived":
+            return
+        ops = case["ops"]
+        for i, op in enumerate(ops):
+            if op["op"] == "projection" and "order" in op and len(op["order"]) > 1:
+                for perm in itertools.permutations(op["order"]):
+                    if list(perm) != list(op["order"]):
+                        yield dict(case, ops=ops[:i] + [dict(op, order=list(perm))] + ops[i + 1:])
+        if any(op["op"] in ("slice", "select") for op in ops):
+            for rd in EDGE_READS:
+                for ax in (0, 1):
+                    r = [{"what": rd, "axis": ax}]
+                    yield dict(case, reads=list(case["reads"]) + r, ops=[dict(op, reads=list(op.get("reads") or []) + r) for op in ops])
 
     def shrink_candidates(self, case):
         if case.get("kind") != "derived":
             return
         ops = case["ops"]
+        if case.get("carriers") and any(c not in (None, "pairs", "fixed") for c in case["carriers"]):
+            cars = [c if c == "fixed" else "pairs" for c in case["carriers"]]                            # plain pairs of edges
+            yield dict(case, carriers=cars, tags=[t for t in case["tags"] if not t.startswith("carrier:")] + ["carrier:" + c for c in cars])
+        if case.get("axis_names"):
+            yield {k_: v for k_, v in case.items() if k_ != "axis_names"}                                # the default names
+        for i, op in enumerate(ops):
+            if op["op"] == "projection" and "order" in op:
+                if len(op["order"]) > 1:                # one axis fewer (the others keep their order)
+                    for j in range(len(op["order"])):
+                        yield dict(case, ops=ops[:i] + [dict(op, order=op["order"][:j] + op["order"][j + 1:])] + ops[i + 1:])
+                if op["by"] != ["index"]:
+                    yield dict(case, ops=ops[:i] + [dict(op, by=["index"])] + ops[i + 1:])
         for i in range(len(ops)):                       # fewer derivations
             yield dict(case, ops=ops[:i] + ops[i + 1:])
         for i in range(len(case["reads"])):             # fewer reads on the source
